@@ -129,10 +129,15 @@ def spec_rand(rnd, mag, dcl, dirc):
             side = 0 if dirc <= 12 else (1 if dirc <= 16 else 2)   # on the axis / one ulp either side
             ux, uy = [(0, 1), (1, 0), (0, -1), (-1, 0)][axis]
             e2, n2 = e1 + d * ux, n1 + d * uy
+            # beside the axis: one ulp of the coordinate (a third of the strata), otherwise an ANGLE of m x 10^-12 .. 10^-5 rad with
+            # the exponent fixed by the stratum (so that every decade is there in every run, whatever the seed)
+            kk = mag * 5 + dcl
+            off = 0.0 if kk % 3 == 0 else d * rnd.uniform(1.0, 9.99) * 10.0 ** (-12 + kk % 8)
+            sgn = 1.0 if side == 1 else -1.0
             if ux == 0:
-                e2 = e1 if side == 0 else nextafter(e1, side == 1)
+                e2 = e1 if side == 0 else (nextafter(e1, side == 1) if off == 0.0 or e1 + sgn * off == e1 else e1 + sgn * off)
             else:
-                n2 = n1 if side == 0 else nextafter(n1, side == 1)
+                n2 = n1 if side == 0 else (nextafter(n1, side == 1) if off == 0.0 or n1 + sgn * off == n1 else n1 + sgn * off)
         if abs(e2) <= lim and abs(n2) <= lim and (e2 != e1 or n2 != n1):
             break
     else:
